@@ -36,6 +36,9 @@ def main():
     seed = int(os.environ.get("VERIF_SEED", "0") or 0)
     if a.replay:
         return do_replay(pid, spec, a.replay, a.keep)
+    if (a.only or a.no_replay) and "VERIF_EVIDENCE_DIR" not in os.environ:
+        # debugging runs never overwrite the evidence of record
+        os.environ["VERIF_EVIDENCE_DIR"] = "/tmp/verif-debug-evidence"
     t0 = time.time()
     tier = a.tier
     tier_cfgs = ["verif_thorough"] if tier == "thorough" else []
